@@ -543,8 +543,20 @@ def lead_loop(ctx, lk):
                 if _eval_pc(s_.pc_raw, env):
                     np_ = nv[roles['p']]
                     adv = None
-                    if isinstance(np_, Ptr) and np_.base == 'in' and isinstance(np_.off, Off) and dict(np_.off.t) == {('lin', 'o'): 1}:
+                    if isinstance(np_, Ptr) and np_.base == 'in' and isinstance(np_.off, Off) and dict(np_.off.t).get(('lin', 'o')) == 1:
+                        # cursor + constant, possibly + a term computed from the lead byte (a width selected without a branch)
                         adv = np_.off.c
+                        for key, scale in np_.off.t:
+                            if key == ('lin', 'o'):
+                                continue
+                            try:
+                                tv = BV(key).subst(env).value()
+                            except Exception:
+                                tv = None
+                            if tv is None:
+                                adv = None
+                                break
+                            adv += scale * tv
                     if nv[roles['len']] != L.add(1):
                         probs.append('count becomes %r, expected count + 1' % (nv[roles['len']],))
                     hit.append(adv)
